@@ -80,6 +80,9 @@ public:
         interrupt_handler = std::move(handler);
     }
 
+#ifdef TEAKRA_VERIF
+    friend struct ::TeakraVerifAccess;
+#endif
 private:
     // TODO: figure out the relation between clock_config and period.
     // Default to period = 4096 for now which every game uses
